@@ -320,7 +320,17 @@ VCLAUSE_ISOLATED(history, 200, 2400, 40000, "the history is non-empty and contai
 VCLAUSE(containment_and_constants, 60, 2500, 50000, "the region is offset from the origin and anisotropic (widths differ by >= 10), or d >= 3")
 {
 	Src& s = c.s;
-	Call k = gen_call(s, false, 30000);
+	// budgets over the stated 1e3..1e6: mostly up to 3e4, sometimes the full range (there Vegas stratifies with several points per cell and its
+	// strata align with the bins also in three and four dimensions, outside finding K2)
+	bool big = s.chance(0.05);
+	Call k	 = gen_call(s, false, big ? 1000000 : 30000);
+	if(big)
+	{
+		k.ncalls = (int) std::pow(10.0, s.uniform(4.5, 6.0));
+		c.cls("budget_above_3e4");
+		if(k.method == 1 && !vegas_strata_misaligned(k.ncalls, k.d) && k.d >= 3)
+			c.cls("vegas_aligned_strata_d_ge_3");
+	}
 	if(s.chance(0.5))
 	{
 		k.family = 0;
@@ -365,10 +375,69 @@ VCLAUSE(containment_and_constants, 60, 2500, 50000, "the region is offset from t
 	}
 }
 
+// ---- unbiasedness: the 6-sigma bound per call (below) leaves room for a bias of several standard errors; a batch of independent calls does not
+// The standardised errors of n calls (each divided by the plain Monte Carlo standard error of its budget, an upper bound for the adaptive
+// methods) average to zero: sqrt(n) times their mean is within 6 with probability 1-2e-9 for an unbiased estimator, and a bias of half a
+// standard error per call shows as 0.5*sqrt(n) = 5.6 ... 7 for n = 128 ... 200.
+VCLAUSE(unbiasedness, 9000, 160, 3200, "the batch uses an adaptive method (Vegas or Miser) or more than one dimension")
+{
+	Src& s	   = c.s;
+	int method = (int) s.range(0, 2), n = 200;
+	int d	   = (int) s.range(1, 4);
+	if(method != 0 || d > 1)
+		c.nt();
+	c.cls(kMC[method]);
+	double zsum = 0, z2 = 0;
+	int used = 0;
+	for(int i = 0; i < n; i++)
+	{
+		Call k;
+		k.d = d;
+		gen_region(s, k.d, k.region);
+		k.ncalls = (int) s.range(1000, 4000);
+		k.method = method;
+		k.seed	 = (unsigned) s.below(4294967296ULL);
+		gen_family(s, k, true);
+		long double m1, m2;
+		moments(k, m1, m2);
+		long double var = m2 - m1 * m1;
+		if(!(var > 1e-12L * m2))
+			continue;	// (numerically) constant integrand: no fluctuation to standardise
+		double V = volume(k), se = V * std::sqrt((double) var / k.ncalls);
+		Recorded r;
+		VMUST_RETURN("Integrate_MC", r = run_call(k));
+		double z = (r.value - V * (double) m1) / se;
+		if(i < 3)
+			VLOG(c, show_call(k) << " -> standardised error " << z);
+		zsum += z;
+		z2 += z * z;
+		used++;
+	}
+	if(used < 100)
+		throw Discard();
+	double zagg = zsum / std::sqrt((double) used);
+	VLOG(c, kMC[method] << " d=" << d << ": " << used << " calls, sqrt(n)*mean standardised error = " << zagg << ", mean square = " << z2 / used);
+	// plain Monte Carlo and Miser (stratified means over points not used for the allocation) are unbiased by construction; Vegas combines
+	// its iterations with estimated weights and carries a small finite-budget bias: a quarter of a standard error per call is allowed there
+	double zlimit = method == 1 ? 6.0 + 0.25 * std::sqrt((double) used) : 6.0;
+	c.ratio(method == 1 ? "aggregated_bias_z_vegas/limit" : "aggregated_bias_z/6", std::fabs(zagg) / zlimit);
+	VCHECK(std::fabs(zagg) <= zlimit, kMC[method] << " d=" << d << ": the standardised errors of " << used << " independent calls average to " << zsum / used << " (" << zagg << " standard errors of that mean): the estimator is biased");
+	// and they are not wider than the plain Monte Carlo error for the same budget (mean square 1; 1.5 allows 5 sigma of its own fluctuation at n >= 100)
+	c.ratio(method == 0 ? "mean_square_standardised_error_plain/1.8" : "mean_square_standardised_error_adaptive/1.8 (recorded only)", z2 / used / 1.8);
+	if(method == 0)
+		VCHECK(z2 / used <= 1.8, kMC[method] << " d=" << d << ": mean square standardised error " << z2 / used << " over " << used << " calls: errors exceed the plain Monte Carlo standard error of the same budget");
+}
+
 VCLAUSE(smooth_accuracy, 60, 1200, 25000, "d >= 2 and the integrand is not constant along any axis")
 {
 	Src& s = c.s;
-	Call k = gen_call(s, true, 30000);
+	bool big = s.chance(0.05);
+	Call k	 = gen_call(s, true, big ? 1000000 : 30000);
+	if(big)
+	{
+		k.ncalls = (int) std::pow(10.0, s.uniform(4.5, 6.0));
+		c.cls("budget_above_3e4");
+	}
 	if(k.d >= 2)
 		c.nt();
 	c.cls(kMC[k.method]);
